@@ -24,6 +24,8 @@ func init() {
 			{ID: "C08.R6", Floor: 3, Run: c05r7, Text: "whole-handle comparison when skipping unchanged targets (= C05.R7)"},
 			{ID: "C08.R7", Floor: 3, Run: c03r5, Text: "batch range consumption (= C03.R5)"},
 			{ID: "C08.R8", Floor: 8, Run: c03r3, Text: "table selection siblings (= C03.R3): the table lists batch operations work on are selected under the same has-relation / active / matches conditions as query iteration"},
+			{ID: "C08.R9", Floor: 1, Run: batchRowFromStart, Text: "rows of a batch table are offset by the recorded StartIndex (= C03.R9)"},
+			{ID: "C08.R10", Floor: 4, Run: c01r3, Text: "column copies of the batch movers read the moved entity's own source row (= C01.R3)"},
 		},
 	})
 }
